@@ -62,6 +62,7 @@ type RefServer struct {
 	tlsStarted bool
 	tlsServing bool       // replies now travel inside TLS
 	tlsDone   chan struct{}
+	TLSState  *tls.ConnectionState // server side view of the established TLS connection
 	out       *bytes.Buffer
 }
 
@@ -489,6 +490,8 @@ func (s *RefServer) serveTLS(end *pipeEnd) {
 	record("tls-on")
 	s.mu.Lock()
 	s.tlsServing = true
+	st := conn.ConnectionState()
+	s.TLSState = &st
 	s.mu.Unlock()
 	buf := make([]byte, 8192)
 	for {
